@@ -56,7 +56,9 @@ DepositEvents(s) ==
      {Dep("e1", q, "u2", to, D1, amt, "d1", h, "none") : to \in {"u1", "bad:notbech32", "opchild"}, amt \in {0, 2}, h \in Hooks}
      \cup {Dep("e1", q, "u2", "u1", D1, amt, "d1", h, f) : amt \in {0, 2}, h \in {NoHook, HookMsgs("u1", << [to |-> "u3", denom |-> D1, amt |-> 1] >>)}, f \in Faults}
      \cup {Dep("e1", q, "bad:empty", "u1", D1, 1, "d1", NoHook, "none"), Dep("e1", q, "u2", "u1", "bad:denom", 1, "d1", NoHook, "none"),
-           Dep("e1", q, "u2", "u1", D1, 1, "bad:denom", NoHook, "none"), Dep("e1", q, "u2", "u1", D1, 1, "d2", NoHook, "none")}
+           Dep("e1", q, "u2", "u1", D1, 1, "bad:denom", NoHook, "none"), Dep("e1", q, "u2", "u1", D1, 1, "d2", NoHook, "none"),
+           Dep("e1", q, "u2", "opchild", D1, 1, "d2", NoHook, "none"), Dep("e1", q, "u2", "bad:notbech32", D1, 0, "d2", NoHook, "none"),
+           Dep("e1", q, "u2", "u1", D1, 2, "d2", HookMsgs("u1", << [to |-> "u3", denom |-> D1, amt |-> 3] >>), "none")}
    ELSE {})
   \cup {Wd(a, "u2", d, n) : a \in {"u1", "u3"}, d \in {D1, N1, D2}, n \in {0, 1, 3}}
   \cup {Wd("u1", "bad:empty", D1, 1), Wd("u1", "u2", "bad:denom", 1)}
